@@ -4,6 +4,7 @@ import (
 	"fmt"
 	"math/rand"
 	"sort"
+	"strings"
 	"time"
 
 	relayertypes "github.com/goatnetwork/goat/x/relayer/types"
@@ -12,8 +13,8 @@ import (
 	"verif/harness/world"
 )
 
-var c01SizesQuick = []int{0, 1, 2, 3, 4, 7, 8, 20, 64, 65}
-var c01SizesAll = []int{0, 1, 2, 3, 4, 5, 6, 7, 8, 11, 20, 32, 63, 64, 65, 100, 255}
+var c01SizesQuick = []int{0, 1, 2, 3, 4, 7, 8, 20, 64, 65, 130}
+var c01SizesAll = []int{0, 1, 2, 3, 4, 5, 6, 7, 8, 11, 20, 32, 63, 64, 65, 100, 130, 255}
 
 const (
 	mustFail = iota // not a genuine quorum: acceptance is a violation
@@ -79,6 +80,13 @@ func c01Variants(r *rand.Rand, n int) []voteVariant {
 		all := pickSubset(r, n, n)
 		add(voteVariant{Class: "genuine-all-voters", Marks: all, NBytes: -1, Signers: withP(all), Expect: control})
 	}
+	if need >= 1 && n > need {
+		var hi []int
+		for i := n - need; i < n; i++ {
+			hi = append(hi, i)
+		}
+		add(voteVariant{Class: "genuine-highest-positions", Marks: hi, NBytes: -1, Signers: withP(hi), Expect: control})
+	}
 	if nb := bytesFor(q); nb < 32 {
 		add(voteVariant{Class: "genuine-padded-bitmap", Marks: q, NBytes: 32, Signers: withP(q), Expect: control})
 	}
@@ -121,6 +129,44 @@ func c01Variants(r *rand.Rand, n int) []voteVariant {
 			// a signer that is not marked
 			extra := pickSubset(r, n, need+1)
 			add(voteVariant{Class: "unmarked-extra-signer", Marks: extra[:need], NBytes: -1, Signers: withP(extra), Expect: mustFail})
+		}
+		// a marked voter did not sign and another marked voter signed twice in its place: the aggregate has the right
+		// number of signatures but the signers are not the marked voters. (x, y) pairs are chosen where an indexing slip
+		// between mark position and voter would land: word/byte offsets, shifts, neighbours.
+		if need >= 2 && n >= 2 {
+			seen := map[[2]int]bool{}
+			for _, x := range []int{n - 1, 64, 65, 72, 127, 128, n / 2} {
+				if x < 1 || x >= n {
+					continue
+				}
+				for _, y := range []int{x - 56, x % 64, x >> 3, x - 64, x - 1, 0, x % 8} {
+					if y < 0 || y >= x || seen[[2]int{x, y}] || len(seen) >= 10 {
+						continue
+					}
+					seen[[2]int{x, y}] = true
+					marks := []int{y, x}
+					for _, o := range pickSubset(r, n, n) {
+						if len(marks) >= need {
+							break
+						}
+						if o != x && o != y {
+							marks = append(marks, o)
+						}
+					}
+					if len(marks) < need {
+						continue
+					}
+					sort.Ints(marks)
+					var signers []int
+					for _, m := range marks {
+						if m != x {
+							signers = append(signers, m)
+						}
+					}
+					signers = append(signers, y) // y once more, x not at all
+					add(voteVariant{Class: "marked-voter-replaced-by-second-signature-of-another", Marks: marks, NBytes: -1, Signers: withP(signers), Expect: mustFail})
+				}
+			}
 		}
 		// a stranger signs in the place of a voter
 		st := append(withP(q[:len(q)-1]), -2)
@@ -454,6 +500,9 @@ func c01History(c *vc.Ctx, n, hist int) {
 				} else {
 					c.Count("genuine_quorums_rejected", 1)
 					c.Sample(map[string]any{"control_rejected": desc, "log": res.Log})
+					if cl := failClass(res.Log); strings.Contains(cl, "verify aggregation") || strings.Contains(cl, "invalid voters") {
+						c.Inconclusive("a genuine quorum (%s, group of %d) was refused by the vote check itself: %s", it.v.Class, n, cl)
+					}
 				}
 			case mayPass:
 				c.Count("permitted_encodings_judged", 1)
